@@ -377,6 +377,15 @@ func judgeRecords(prop string) func(Hist) *h.Verdict {
 			nlive := len(st.live())
 			lv := st.live()
 			res := w.Exec(op)
+			if op.K == "fill" && res.FillTarget != 0 {
+				v.Label("last-report-built-to-the-octet")
+				if res.FillTarget > recordLimit {
+					v.Label("last-report-would-exceed-the-limit-by-1-to-12")
+				}
+				if res.FillSteps >= 140 {
+					v.Label("filled-in>=140-updates")
+				}
+			}
 			if res.Skipped {
 				continue
 			}
@@ -419,7 +428,7 @@ func judgeRecords(prop string) func(Hist) *h.Verdict {
 				}
 			} else {
 				switch op.K {
-				case "update":
+				case "update", "fill":
 					snap := snapshot(st.supi)
 					if !checkFile(st, v, step, op, snap.NRecords, usageBytes(res)) {
 						return v
@@ -517,3 +526,37 @@ func TestC02Volume(t *testing.T) {
 func TestC03Volume(t *testing.T) {
 	h.Run(t, "C03", "volume", genRecVolume, volumeOf(judgeRecords("C03"), false))
 }
+
+// Fill: sessions whose record is filled update by update right up to the record limit, the last report built to the
+// octet (see fill.go).
+var slackPool = []int{1, 2, 3, 4, 5, 6, 1, 3, 6, 0, -1, -6, 8, 12}
+
+func genFill(t *rapid.T) Hist {
+	var hst Hist
+	hst.TZ = rapid.SampledFrom(zonePool).Draw(t, "tz")
+	// (one subscriber per session: every update rewrites the subscriber's file with all its records)
+	for i := 0; i < h.Scale(1, 2); i++ {
+		hst.Subs = append(hst.Subs, Sub{Acct: [3]Acct{{1, 1 << 40}, {1, 1 << 40}, {1, 5000}}})
+		hst.Ops = append(hst.Ops, Op{K: "create", S: i, Name: "smf", UUs: []UU{{RG: 1, Req: 10}}})
+		hst.Ops = append(hst.Ops, Op{K: "fill", S: i, Sess: 0, RG: 2, Amt: int64(rapid.SampledFrom(slackPool).Draw(t, "slack"))})
+		hst.Ops = append(hst.Ops, Op{K: "update", S: i, Sess: 0, UUs: []UU{{RG: 2, Conts: []Cont{{Q: "offline", Tot: 5, Up: 1, Down: 2, SSU: 3, Pm: -1}}}}})
+		if i == 1 {
+			// the record that continues the session is filled as well
+			hst.Ops = append(hst.Ops, Op{K: "fill", S: i, Sess: 0, RG: 3, Amt: int64(rapid.SampledFrom(slackPool).Draw(t, "slack2"))})
+		}
+		hst.Ops = append(hst.Ops, Op{K: "release", S: i, Sess: 0})
+	}
+	return hst
+}
+
+func fillOf(j func(Hist) *h.Verdict) func(Hist) *h.Verdict {
+	return func(hst Hist) *h.Verdict {
+		v := j(hst)
+		v.Label("record-filled-to-the-limit-in-small-steps")
+		v.NonTrivial = true
+		return v
+	}
+}
+
+func TestC02Fill(t *testing.T) { h.Run(t, "C02", "fill", genFill, fillOf(judgeRecords("C02"))) }
+func TestC03Fill(t *testing.T) { h.Run(t, "C03", "fill", genFill, fillOf(judgeRecords("C03"))) }
